@@ -456,6 +456,13 @@ class DULServiceProvider(Thread):
             try:
                 self.state_machine.do_action(event)
             except InvalidEventError:
+                # An ARTIM expiry that was queued behind the event whose action
+                #   stopped the timer (i.e. the PDU did arrive in time) is stale
+                if event == "Evt18" and not self.artim_timer.is_running:
+                    LOGGER.debug("Ignoring a stale ARTIM timer expiry")
+                    sleep = False
+                    continue
+
                 # If the provider has already aborted the association (Sta13,
                 #   awaiting transport connection close) then a primitive that
                 #   was still queued by the local user cannot be acted on, so
